@@ -470,12 +470,13 @@ class MergeSortView(Table):
         if presorted:
             self.tables = tables
         else:
-            # N.B., short rows are padded with `missing` before sorting, so
-            # that each input is sorted by the same key values that the merge
-            # will see (as when sorting the output of cat())
-            self.tables = [sort(_PadView(t, missing), key=key,
-                                reverse=reverse, buffersize=buffersize,
-                                tempdir=tempdir, cache=cache)
+            # N.B., each input is put into the layout of the output header
+            # before it is sorted, so that it is sorted by the same key values
+            # that the merge will see (as when sorting the output of cat())
+            self.tables = [sort(_StandardiseView(t, tables, header, missing),
+                                key=key, reverse=reverse,
+                                buffersize=buffersize, tempdir=tempdir,
+                                cache=cache)
                            for t in tables]
         self.missing = missing
         self.header = header
@@ -486,26 +487,31 @@ class MergeSortView(Table):
                              self.reverse)
 
 
-class _PadView(Table):
-    """Rows of `table` with short rows padded out to the header's length."""
+class _StandardiseView(Table):
+    """One of the input tables of a merge in the layout of the output header,
+    as cat() would give it: the fields of all tables in order of appearance (or
+    the given header), absent fields and short rows filled with `missing`."""
 
-    def __init__(self, table, missing=None):
+    def __init__(self, table, tables, header=None, missing=None):
         self.table = table
+        self.tables = tables
+        self.header = header
         self.missing = missing
 
     def __iter__(self):
-        it = iter(self.table)
-        try:
-            hdr = next(it)
-        except StopIteration:
-            return
-        yield hdr
-        n = len(hdr)
-        for row in it:
-            row = tuple(row)
-            if len(row) < n:
-                row += (self.missing,) * (n - len(row))
-            yield row
+        outhdr = self.header
+        if outhdr is None:
+            outhdr = list()
+            for t in self.tables:
+                it = iter(t)
+                try:
+                    hdr = next(it)
+                except StopIteration:
+                    hdr = []
+                for f in map(text_type, hdr):
+                    if f not in outhdr:
+                        outhdr.append(f)
+        return itermergesort([self.table], None, outhdr, self.missing, False)
 
 
 def itermergesort(sources, key, header, missing, reverse):
